@@ -393,6 +393,7 @@ class GroupBy:
         Count of observations for each group as numpy array containing the ikey or codes.
         Includes empty groups
         """
+        self._unify_group_key_chunks_for_positional_mask(mask)
         if self.key_is_chunked:
             group_key, first_chunk_in, mask_chunks = (
                 self._resolve_mask_argument_into_chunks(mask)
@@ -599,6 +600,20 @@ class GroupBy:
             self._group_ikey = pa.chunked_array(chunks)
         else:
             self._group_ikey = np.concatenate(chunks)
+
+    def _unify_group_key_chunks_for_positional_mask(self, mask):
+        """
+        Integer positions select rows in their given order and as often as they are
+        repeated. That cannot be expressed chunk by chunk (a boolean mask per chunk
+        loses both), so such masks are applied to the unified key.
+        """
+        if (
+            self.key_is_chunked
+            and mask is not None
+            and not isinstance(mask, slice)
+            and not pd.api.types.is_bool_dtype(mask)
+        ):
+            self._unify_group_key_chunks()
 
     @cached_property
     def has_null_keys(self) -> bool:
@@ -847,6 +862,7 @@ class GroupBy:
         applying the function to each chunk, and then combining the results.
         Thus, the function is applied in parallel across both the chunks of group keys and the multiple value arrays.
         """
+        self._unify_group_key_chunks_for_positional_mask(mask)
         group_key, first_chunk_in, mask_chunks = (
             self._resolve_mask_argument_into_chunks(mask)
         )
